@@ -341,11 +341,11 @@ def hexs(b):
     return b.hex() if b else "-"
 
 
-def run_pair(corr, lines, timeout=600, env_extra=None):
+def run_pair(corr, lines, timeout=240, env_extra=None):
     """Run harness and Lean driver on the same op lines. Returns (c_out_lines, l_out_lines, c_stderr, c_rc)."""
     data = ("\n".join(lines) + "\n").encode()
     env = dict(os.environ)
-    env["ASAN_OPTIONS"] = "detect_leaks=1:abort_on_error=0:exitcode=77:allocator_may_return_null=1"
+    env["ASAN_OPTIONS"] = "detect_leaks=1:abort_on_error=0:exitcode=77:allocator_may_return_null=1:hard_rss_limit_mb=6144"
     env["UBSAN_OPTIONS"] = "print_stacktrace=0:halt_on_error=0"
     if env_extra:
         env.update(env_extra)
@@ -374,10 +374,10 @@ def run_pair(corr, lines, timeout=600, env_extra=None):
             ce.decode(errors="replace"), crc)
 
 
-def run_c(corr, lines, timeout=600, env_extra=None):
+def run_c(corr, lines, timeout=240, env_extra=None):
     data = ("\n".join(lines) + "\n").encode()
     env = dict(os.environ)
-    env["ASAN_OPTIONS"] = "detect_leaks=1:abort_on_error=0:exitcode=77:allocator_may_return_null=1"
+    env["ASAN_OPTIONS"] = "detect_leaks=1:abort_on_error=0:exitcode=77:allocator_may_return_null=1:hard_rss_limit_mb=6144"
     env["UBSAN_OPTIONS"] = "print_stacktrace=0:halt_on_error=0"
     if env_extra:
         env.update(env_extra)
